@@ -209,12 +209,12 @@ def conv_items(repo):
     witness!(nd, x == y, "a == b");
 }
 """ % d, "pass", ["C04", "C05", "C18"]))
-        for L in (3, 4, 5, 6):
+        for L in (8, 9):
             dd = dict(d, L=L)
             items.append(("nt_parse_%s_len%d" % (low, L),
                           "str::parse::<%s> over every ASCII byte string of length 0..=%d" % (name, L),
                           """pub fn nt_parse_%(low)s_len%(L)d<N: Nd>(nd: &mut N) {
-    crate::numeric::parse_all::<N, %(t)s>(nd, %(mx)d, %(L)d, |v| v.get() as u32)
+    crate::numeric::parse_all::<N, %(t)s, %(L)d>(nd, %(mx)d, %(L)d, |v| v.get() as u32)
 }
 """ % dd, "pass", ["C04", "C05", "C18"]))
         items.append(("nt_display_" + low, "Display of every %s value into a stack buffer" % name,
@@ -256,12 +256,12 @@ def conversion_harnesses(repo):
     for fn, desc, src, expect, props in conv_items(repo):
         if fn.startswith("nt_parse_"):
             L = int(fn[-1])
-            # every ASCII string of length 0..=6 (the longest in-range numerals have 5 digits, so
+            # every ASCII string of length 0..=L (the longest in-range numerals have 5 digits, so
             # this covers a sign and a leading zero on top of them); shorter bounds are not run
-            if L != 6:
-                continue
-            hs.append(registry.H(fn, "generated::conv::" + fn, props, desc, unwind=9, tier="quick",
-                                 cost=30, timeout=3000))
+            # L = 8 in both tiers, L = 9 (the largest length for which the u32 oracle cannot overflow) in the thorough tier
+            hs.append(registry.H(fn, "generated::conv::" + fn, props, desc, unwind=L + 3,
+                                 tier="quick" if L == 8 else "thorough",
+                                 cost=30 if L == 8 else 60, timeout=3000))
             continue
         if fn.startswith("nt_display_"):
             hs.append(registry.H(fn, "generated::conv::" + fn, props, desc, unwind=9, cost=15))
